@@ -34,7 +34,7 @@ func checkC03(p *Prog, r *Result, tier string) {
 		return f.Signature.Recv() != nil && named(f.Signature.Recv().Type()) == a.ObjIndex && c.Of(f).Has(EErrUnique) && c.own[f].Union(c.Of(f)).Has(EIdxWLive)
 	}
 	isUnindex := func(f *ssa.Function) bool {
-		return f.Signature.Recv() != nil && named(f.Signature.Recv().Type()) == a.ObjIndex && !c.Of(f).Has(EErrUnique) && c.Of(f).Has(EIdxWLive)
+		return f.Signature.Recv() != nil && named(f.Signature.Recv().Type()) == a.ObjIndex && !c.Of(f).Has(EErrUnique) && c.Of(f).Has(EIdxWLive) && p.IsIndexDelete(f)
 	}
 	exploreAll(p, c, jobs, effs(EOkUniqLive, ECanon, EHookT), r, func(j exploreJob) Listener {
 		return &effListener{p: p, r: r, root: j.root, val: j.val, onEvent: func(l *effListener, x *Explorer, st *State, ev *Event) {
